@@ -53,7 +53,7 @@ def run(ck):
     ck.prove()
     rng = ck.rng("jobs")
     groups = []
-    n_cases = ck.n(16, 300)
+    n_cases = ck.n(16, 150)
     for seed in [None, 0, 1, 2] + ([3, 4, 5, 7, 8] if not ck.quick() else []):
         cases = []
         for _ in range(n_cases):
